@@ -259,7 +259,8 @@ theorem e2e_data_reaches_raw (ct : CType) (h : isE2EType ct = true) (pfx data : 
 theorem plain_data_sink (ct : CType) (h : isE2EType ct = false) (pfx data : Bytes) (tunnelEp destZero : Bool) :
     onDataSink (some ct) true true pfx tunnelEp destZero data =
       (if couldBeIpv8 data then
-         (if data.take 22 == pfx then .ownPacket else if tunnelEp then .otherCommunity else .droppedNoTunnelEndpoint)
+         (if data.take 22 == pfx then (if data[22]? == some 1 then .droppedNestedData else .ownPacket)
+          else if tunnelEp then .otherCommunity else .droppedNoTunnelEndpoint)
        else .raw) := by
   simp [onDataSink, h]
 
@@ -362,5 +363,22 @@ theorem payload_needs_all_later_hop_keys (L : A.Laws) (K : A.Key → Prop) (d : 
       have := L.ovh_pos
       simp only [List.length_cons, Nat.mul_add, Nat.mul_one]; omega
   · exact absurd (hall p hp) hnk
+
+/-- **IPv8-shaped return traffic reaches exactly the anonymized overlay it is addressed to.**  Overlay `i` is in the delivery
+    set of a packet handed over by the tunnel iff its prefix is the packet's and it is anonymized; a non-anonymized overlay
+    is never in it.  (A specification of `TunnelEndpoint.notify_listeners(..., from_tunnel=True)`; its tie to the code is
+    the `tdeliver` correspondence of the tunnel-endpoint scenario.) -/
+theorem tunnel_delivery_spec (overlays : List (Bytes × Bool)) (packet : Bytes) (i : Nat) :
+    i ∈ tunnelDelivery overlays packet ↔
+      ∃ o, overlays[i]? = some o ∧ o.1 = packet.take 22 ∧ o.2 = true := by
+  simp only [tunnelDelivery, List.mem_map, List.mem_filter, List.mem_zipIdx_iff_getElem?, Bool.and_eq_true, beq_iff_eq]
+  constructor
+  · rintro ⟨⟨o, j⟩, ⟨hj, h1, h2⟩, rfl⟩
+    exact ⟨o, by simpa using hj, h1, h2⟩
+  · rintro ⟨o, ho, h1, h2⟩
+    exact ⟨(o, i), ⟨by simpa using ho, h1, h2⟩, rfl⟩
+
+example : tunnelDelivery [(List.replicate 22 1, true), (List.replicate 22 2, false), (List.replicate 22 1, false)]
+    (List.replicate 22 1 ++ [9, 9]) = [0] := by decide
 
 end Ipv8.C04
